@@ -59,6 +59,18 @@ CHECKS = {
         note="Trusted: SimMDP tables; SAC critics replaced by table critics after reset; rows overwritten before the first read are skipped (counted).",
         ref="5 (C05)",
     ),
+    "C06": dict(
+        oracle="model-based stateful test of ReplayBuffer against RefRing (deque) with tagged rows, plus in-vivo re-check inside the DQN/SAC loops",
+        text="Seeded add/sample histories (wrap-around many times, partial fill, 1..4 per-node buffers with different fill levels sampled jointly) with every field of a row encoding its insertion number; contents and samples are compared with a deque reference after every operation. Exploration.",
+        note="Capacities 1..12, <= 66 operations per history; unwritten slots recognisable by construction.",
+        ref="5 (C06)",
+    ),
+    "C09": dict(
+        oracle="exactly-once delivery of tagged samples read back from the trained parameters after the real train(); API-level bijection/partition checks",
+        text="Every collected sample carries a unique tag in every field; after the real PPO/A2C/REINFORCE update with SGD the number of visits of each sample is recovered from its own value-table entry, alignment from penalties and logged statistics. Exploration over (num_envs, num_steps, num_batches, num_epochs, keys).",
+        note="Trusted: optax.sgd, the halving construction (lr = B/(2*vf)); N <= 64, E <= 4.",
+        ref="5 (C09)",
+    ),
     "C07": dict(
         oracle="RefTD: targets recovered from Q-table deltas (DQN) and logged q_loss / critic deltas (SAC) under scheduled termination/time-out events",
         text="System-level reading: the running learner's reaction to the kind of episode end the simulator schedules is compared with the reference TD rule after every real iteration (tabular Q, SGD, full-buffer batches). Seeded exploration.",
